@@ -277,12 +277,16 @@ class Harness:
             unpatch_clock()
             for mod, fname, orig in undo:
                 setattr(mod, fname, orig)
+        ghost_init_names = {st.split("=")[0].strip() for st in getattr(c, "ghost_init", [])}
+
         def judge_ensures(result):
             ns["result"] = result
             for cl in self.ensures:
                 names = {n.id for n in ast.walk(ast.parse(cl.text.strip(), mode="eval")) if isinstance(n, ast.Name)}
                 if names & set(missing_ghost):
                     continue
+                if names & ghost_init_names:
+                    continue            # speaks about a log only the verifier's models keep (sleeps, wait_timeouts)
                 if any(cl.name.endswith(sfx) for sfx in skip_clauses):
                     continue            # this input lies in a listed known finding's regime for this clause
                 try:
